@@ -1,7 +1,7 @@
 (* Net/ExchangeProofs.v — invariants and progress of the exchange LTS (C14). *)
 From Mos Require Import Base.Prelude Net.Exchange.
 
-Local Opaque Nat.ltb Nat.sub Nat.mul.
+Local Opaque Nat.ltb Nat.leb Nat.sub Nat.mul.
 
 (* ---------- case analysis of one step ---------- *)
 Ltac bool_cases :=
@@ -150,7 +150,8 @@ Qed.
 (* ---------- 2. the invariant behind retry_bound and stale_success ---------- *)
 
 Definition causes (tk : tkind) (s : state) : Prop :=
-  ctxd s = true \/ g_dial_fail s = true \/ g_get_err s = true \/ g_fresh_fail s = true \/ retry_limit tk < fails s.
+  ctxd s = true \/ g_dial_fail s = true \/ g_get_err s = true \/ g_fresh_fail s = true \/
+  (last_attempt_dials tk = false /\ retry_limit tk < fails s).
 
 Definition inv (tk : tkind) (s : state) : Prop :=
   retry s <= retry_limit tk /\
@@ -168,20 +169,29 @@ Definition inv (tk : tkind) (s : state) : Prop :=
    | PDialWait _ | PWrite true | PWait true _ | PCheck true => tk = TDoH \/ dials s = 1
    | PRet _ => True
    end) /\
-  (g_fresh_fail s = false /\ g_dial_fail s = false /\ g_get_err s = false \/ returned s = true).
+  (g_fresh_fail s = false /\ g_dial_fail s = false /\ g_get_err s = false \/ returned s = true) /\
+  (* where the last attempt dials, an attempt on a reused connection always has retry budget left *)
+  (last_attempt_dials tk = true ->
+   match pcv s with
+   | PWrite false | PWait false _ | PCheck false => retry s < retry_limit tk
+   | _ => True
+   end).
 
 Lemma inv_init tk : inv tk init.
 Proof. unfold inv, init; cbn. repeat split; auto; try lia. discriminate. Qed.
 
+
 Lemma inv_step tk s l s' : inv tk s -> step tk s l = Some s' -> inv tk s'.
 Proof.
-  intros (I1 & I2 & I3 & I4 & I5 & I6 & I7) H.
+  intros (I1 & I2 & I3 & I4 & I5 & I6 & I7 & I8) H.
   step_inv H; cbn in *;
     repeat match goal with
     | E : (_ && _) = true |- _ => apply andb_true_iff in E; destruct E
     | E : (_ && _) = false |- _ => apply andb_false_iff in E
     | E : (_ <? _) = true |- _ => apply Nat.ltb_lt in E
     | E : (_ <? _) = false |- _ => apply Nat.ltb_ge in E
+    | E : (_ <=? _) = true |- _ => apply Nat.leb_le in E
+    | E : (_ <=? _) = false |- _ => apply Nat.leb_gt in E
     | E : negb _ = true |- _ => apply negb_true_iff in E
     | E : negb _ = false |- _ => apply negb_false_iff in E
     end; subst; cbn in *;
@@ -190,6 +200,14 @@ Proof.
     try (intros _; unfold causes in *; cbn in *; intuition (auto; lia));
     try (destruct I6 as [?|?]; [discriminate|lia]);
     try (destruct I7 as [(? & ? & ?)|?]; [auto|discriminate]);
+    intuition (auto; try lia; try discriminate);
+    repeat match goal with
+    | H : context [negb ?b] |- _ => is_var b; destruct b; cbn in *
+    end;
+    repeat match goal with
+    | E : (_ <? _) = false |- _ => apply Nat.ltb_ge in E
+    | E : (_ <? _) = true |- _ => apply Nat.ltb_lt in E
+    end;
     intuition (auto; try lia; try discriminate).
 Qed.
 
@@ -273,7 +291,7 @@ Lemma retry_bound tk s :
   retry s <= retry_limit tk /\ attempts s <= retry_limit tk + 1 /\ dials s <= 1 /\
   (pcv s = PGet -> dials s = 0).
 Proof.
-  intros Hr. destruct (inv_reachable _ _ Hr) as (I1 & I2 & I3 & I4 & I5 & I6 & I7).
+  intros Hr. destruct (inv_reachable _ _ Hr) as (I1 & I2 & I3 & I4 & I5 & I6 & I7 & I8).
   repeat split; auto.
   - destruct (pcv s); lia.
   - intros Hp. rewrite Hp in I6. auto.
@@ -372,7 +390,21 @@ Proof.
   intros Hr Hp Hc Hd Hg Hf Hn.
   destruct (inv_reachable _ _ Hr) as (_ & _ & _ & I4 & _).
   destruct r; auto. exfalso.
-  destruct (I4 Hp) as [H|[H|[H|[H|H]]]]; try congruence. lia.
+  destruct (I4 Hp) as [H|[H|[H|[H|[_ H]]]]]; try congruence. lia.
+Qed.
+
+(* where the last attempt dials (ReuseConnTransport after the fix of K7) no bound on the number of stale pooled
+   connections is needed *)
+Lemma stale_success_unbounded tk s r :
+  last_attempt_dials tk = true ->
+  reachable tk s -> pcv s = PRet r ->
+  ctxd s = false -> g_dial_fail s = false -> g_get_err s = false -> g_fresh_fail s = false ->
+  r = RReply.
+Proof.
+  intros Hl Hr Hp Hc Hd Hg Hf.
+  destruct (inv_reachable _ _ Hr) as (_ & _ & _ & I4 & _).
+  destruct r; auto. exfalso.
+  destruct (I4 Hp) as [H|[H|[H|[H|[H _]]]]]; congruence.
 Qed.
 
 (* a healthy connection is not blocked: the reply can be delivered and taken *)
@@ -402,25 +434,27 @@ Proof.
     do 7 (destruct k as [|k]; [first [lia | vm_compute; reflexivity]|]); lia.
 Qed.
 
-(* K7: the one-at-a-time transport walks its idle set; one more stale idle connection than the retry limit and the
-   exchange fails without ever dialling, although a dial would have succeeded *)
-Definition k7_trace : list label := Eval vm_compute in run_labels script_fuel TReuse init (repeat FDie 7) [] FNone.
-Definition k7_final : option state := Eval vm_compute in exec TReuse k7_trace init.
+(* K7 (fixed): however many idle connections of the one-at-a-time transport are stale, the exchange walks at most
+   retry_limit of them and makes its last attempt on a freshly dialled connection *)
+Lemma script_reuse_prefix rest :
+  run_script TReuse (repeat FDie 6 ++ rest) [] = Some (mkOut RReply 1 7 false).
+Proof. vm_compute. reflexivity. Qed.
 
-Lemma many_stale_refuted :
-  (exists ls s, exec TReuse ls init = Some s /\ pcv s = PRet RErr /\
-                ctxd s = false /\ g_dial_fail s = false /\ g_get_err s = false /\ g_fresh_fail s = false /\
-                dials s = 0 /\ fails s = 7) /\
-  run_script TReuse (repeat FDie 7) [] = Some (mkOut RErr 0 7 false) /\
-  run_script TReuse (repeat FDie 12) [] = Some (mkOut RErr 0 7 false) /\
-  run_script TReuse [] [] = Some (mkOut RReply 1 1 false).
+Lemma script_many_stale_survived n :
+  run_script TReuse (repeat FDie n) [] = Some (mkOut RReply 1 (S (Nat.min n 6)) false).
 Proof.
-  split; [|repeat split; vm_compute; reflexivity].
-  exists k7_trace.
-  destruct k7_final as [s|] eqn:E; [|discriminate E].
-  exists s. unfold k7_final in E. split; [exact E|].
-  vm_compute in E. injection E as <-. cbn. repeat split.
+  destruct (Nat.le_gt_cases n 6) as [H|H].
+  - rewrite Nat.min_l by lia. apply script_stale_success; [discriminate|exact H].
+  - rewrite Nat.min_r by lia.
+    replace n with (6 + (n - 6)) by lia. rewrite repeat_app. apply script_reuse_prefix.
 Qed.
+
+(* the pipelined transport and QUIC keep the side condition: their pools never hand out a connection known to be
+   closed, but 6 connections that each die only when used still exhaust the budget without a dial *)
+Lemma script_budget_exhausted :
+  run_script TPipe (repeat FDie 6) [] = Some (mkOut RErr 0 6 false) /\
+  run_script TQuic (repeat FDie 6) [] = Some (mkOut RErr 0 6 false).
+Proof. split; vm_compute; reflexivity. Qed.
 
 (* the scripted runner only ever produces executions of [step] *)
 Lemma run_script_sound tk pool dialf o :
